@@ -340,3 +340,144 @@ End Respects.
 
 Theorem create_flat_respects : forall a b, input_equiv a b -> fres_equiv (create_flat a) (create_flat b).
 Proof. intros a b H. apply create_flat_respects_ab. exact H. Qed.
+
+(** * The documented equivalences at the level of the flat record *)
+
+Definition with_constraints (ci : create_input) (cs : list iconstraint) : create_input :=
+  {| ci_design := ci_design ci; ci_crossings := ci_crossings ci; ci_sustains := ci_sustains ci; ci_weights := ci_weights ci;
+     ci_constraints := cs; ci_rcc := ci_rcc ci; ci_mode := ci_mode ci; ci_alignment := ci_alignment ci;
+     ci_exclusions := ci_exclusions ci; ci_derivations := ci_derivations ci;
+     ci_excluded_derived := ci_excluded_derived ci; ci_errors_fail := ci_errors_fail ci |}.
+
+Lemma Forall_ones_skipn : forall {A} (l : list A) k, Forall (fun n => n = 1) (skipn k (map (fun _ => 1) l)).
+Proof.
+  intros A l k. apply Forall_forall. intros x Hx.
+  assert (Hin : In x (map (fun _ : A => 1) l)).
+  { rewrite <- (firstn_skipn k (map (fun _ : A => 1) l)). apply in_or_app. right. exact Hx. }
+  apply in_map_iff in Hin. destruct Hin as [_ [E _]]. auto.
+Qed.
+
+(** Repeat(block, cs) hands [_create] the block's constraints followed by [cs], Merge([block], cs, ...)
+    [cs] followed by the block's (everything else equal, C24_repeat_eq_merge): same flat record up to
+    the order of the constraints *)
+Theorem flat_repeat_merge : forall ci cb own,
+  Forall (fun n => n = 1) (skipn (length (st_crossings ci)) (ci_sustains ci)) ->
+  min_trials_positive (cb ++ own) ->
+  fres_equiv (create_flat (with_constraints ci (cb ++ own))) (create_flat (with_constraints ci (own ++ cb))).
+Proof.
+  intros ci cb own Hones Hpos. apply create_flat_respects. unfold input_equiv, with_constraints, st_crossings. cbn.
+  repeat split; try assumption. apply Permutation_app_comm.
+Qed.
+
+(** MultiCrossBlock hands [_create] all its crossings (possibly empty ones) with one count 1 and one
+    weight 1 each; the Merge of CrossBlocks only the non-empty crossings with theirs
+    (C24_multicross_eq_merge): same flat record up to the placeholder counts and weights *)
+Definition drop_empty (ci : create_input) : create_input :=
+  {| ci_design := ci_design ci; ci_crossings := st_crossings ci;
+     ci_sustains := map (fun _ => 1) (st_crossings ci); ci_weights := map (fun _ => 1) (st_crossings ci);
+     ci_constraints := ci_constraints ci; ci_rcc := ci_rcc ci; ci_mode := ci_mode ci; ci_alignment := ci_alignment ci;
+     ci_exclusions := ci_exclusions ci; ci_derivations := ci_derivations ci;
+     ci_excluded_derived := ci_excluded_derived ci; ci_errors_fail := ci_errors_fail ci |}.
+
+Lemma filter_nonempty_idem : forall l, filter nonempty_c (filter nonempty_c l) = filter nonempty_c l.
+Proof.
+  induction l as [|c l IH]; [reflexivity|]. cbn [filter]. destruct (nonempty_c c) eqn:E; cbn [filter]; [rewrite E, IH|]; auto.
+Qed.
+
+Lemma firstn_ones_le : forall {A B} (l : list A) (l' : list B),
+  length l' <= length l -> firstn (length l') (map (fun _ => 1) l) = map (fun _ => 1) l'.
+Proof.
+  intros A B l. induction l as [|x l IH]; intros [|y l'] Hle; cbn in *; try reflexivity; try lia. f_equal. apply IH. lia.
+Qed.
+
+Lemma filter_le : forall {A} (P : A -> bool) l, length (filter P l) <= length l.
+Proof. intros A P l. induction l as [|x l IH]; cbn [filter length]; [lia|]. destruct (P x); cbn [length]; lia. Qed.
+
+Theorem flat_multi_merge : forall ci,
+  ci_sustains ci = map (fun _ => 1) (ci_crossings ci) -> ci_weights ci = map (fun _ => 1) (ci_crossings ci) ->
+  min_trials_positive (ci_constraints ci) ->
+  fres_equiv (create_flat ci) (create_flat (drop_empty ci)).
+Proof.
+  intros ci Hs Hw Hpos. apply create_flat_respects. unfold input_equiv, drop_empty, st_crossings. cbn.
+  rewrite filter_nonempty_idem, Hs, Hw.
+  assert (Hle : length (filter nonempty_c (ci_crossings ci)) <= length (ci_crossings ci)) by apply filter_le.
+  rewrite !(firstn_ones_le _ _ Hle), !(firstn_ones_le _ _ (le_n _)).
+  repeat split; try assumption; try apply Forall_ones_skipn. apply Permutation_refl.
+Qed.
+
+(** identical arguments give the identical record (CrossBlock vs MultiCrossBlock in WEIGHT mode) *)
+Lemma fres_equiv_refl_ok : forall ci fb, create_flat ci = FOk fb -> flat_equiv fb fb.
+Proof. intros ci fb _. unfold flat_equiv. repeat split; reflexivity || apply Permutation_refl. Qed.
+
+(** * ... and as statements about valid sequences
+    [sem_of] is the reading of a flat record as a reference-semantics normal form (in the
+    development: Encode/CodeSem.v's [code_sem], compared with the real samplers on every run).
+    The hypothesis left is about that reading, no longer about [_create]: it looks at the record
+    only up to [flat_equiv] (sustain counts and weights of actual crossings, constraints and
+    exclusions as sets). *)
+From SP Require Import Design.Sem.
+
+Section SemOf.
+Variable sem_of : flat -> sem.
+Hypothesis sem_of_respects : forall x y, flat_equiv x y -> forall s, valid_b (sem_of x) s = valid_b (sem_of y) s.
+
+Theorem respects_valid : forall a b x y s,
+  input_equiv a b -> create_flat a = FOk x -> create_flat b = FOk y -> valid_b (sem_of x) s = valid_b (sem_of y) s.
+Proof.
+  intros a b x y s Hab Hx Hy. apply sem_of_respects.
+  pose proof (create_flat_respects a b Hab) as E. rewrite Hx, Hy in E. exact E.
+Qed.
+
+Theorem repeat_merge_valid_flat : forall ci cb own x y s,
+  Forall (fun n => n = 1) (skipn (length (st_crossings ci)) (ci_sustains ci)) ->
+  min_trials_positive (cb ++ own) ->
+  create_flat (with_constraints ci (cb ++ own)) = FOk x -> create_flat (with_constraints ci (own ++ cb)) = FOk y ->
+  valid_b (sem_of x) s = valid_b (sem_of y) s.
+Proof.
+  intros ci cb own x y s H1 H2 Hx Hy. apply sem_of_respects.
+  pose proof (flat_repeat_merge ci cb own H1 H2) as E. rewrite Hx, Hy in E. exact E.
+Qed.
+
+Theorem multi_merge_valid_flat : forall ci x y s,
+  ci_sustains ci = map (fun _ => 1) (ci_crossings ci) -> ci_weights ci = map (fun _ => 1) (ci_crossings ci) ->
+  min_trials_positive (ci_constraints ci) ->
+  create_flat ci = FOk x -> create_flat (drop_empty ci) = FOk y ->
+  valid_b (sem_of x) s = valid_b (sem_of y) s.
+Proof.
+  intros ci x y s H1 H2 H3 Hx Hy. apply sem_of_respects.
+  pose proof (flat_multi_merge ci H1 H2 H3) as E. rewrite Hx, Hy in E. exact E.
+Qed.
+End SemOf.
+
+(** equivalent inputs are accepted or rejected alike *)
+Theorem respects_outcome : forall a b, input_equiv a b ->
+  (forall e, create_flat a = FErr e <-> create_flat b = FErr e).
+Proof.
+  intros a b Hab e. pose proof (create_flat_respects a b Hab) as E.
+  destruct (create_flat a) as [x|ea], (create_flat b) as [y|eb]; cbn in E; try contradiction; split; intro Hc; try discriminate; congruence.
+Qed.
+
+(** * Example: a block with an empty crossing and two constraints *)
+Require Import String.
+Open Scope string_scope.
+Definition ex_lv (n : string) : flevel := {| lv_name := n; lv_weight := 1; lv_accepts := [] |}.
+Definition ex_fac (n a b : string) : ffactor :=
+  {| ff_name := n; ff_hidden := false; ff_levels := [ex_lv a; ex_lv b]; ff_window := None; ff_complex := false |}.
+Definition ex_input : create_input :=
+  {| ci_design := [ex_fac "A" "a0" "a1"; ex_fac "B" "b0" "b1"]; ci_crossings := [[0]; []; [1]];
+     ci_sustains := [1; 1; 1]; ci_weights := [1; 1; 1];
+     ci_constraints := [ICon (FMinimumTrials 3); IKRowFactor RAtMost 1 0 None];
+     ci_rcc := true; ci_mode := MRepeat; ci_alignment := EqualPreamble;
+     ci_exclusions := [0; 0]; ci_derivations := []; ci_excluded_derived := []; ci_errors_fail := false |}.
+
+Lemma ex_input_flat :
+  exists fb, create_flat ex_input = FOk fb /\ fl_trials fb = 3 /\ fl_crossings fb = [[0]; [1]] /\ fl_sustains fb = [1; 1; 1] /\
+    fl_constraints fb = [FCross; FConsistency; FMinimumTrials 3;
+                         FAtMost 1 0 0 (Some {| g_trials := 3; g_preamble := 0; g_sustain := [(0, 1); (1, 1)] |});
+                         FAtMost 1 0 1 (Some {| g_trials := 3; g_preamble := 0; g_sustain := [(0, 1); (1, 1)] |})] /\
+  exists fb', create_flat (drop_empty ex_input) = FOk fb' /\ fl_sustains fb' = [1; 1] /\ flat_equiv fb fb'.
+Proof.
+  eexists. split; [vm_compute; reflexivity|]. repeat split.
+  eexists. split; [vm_compute; reflexivity|]. split; [reflexivity|].
+  unfold flat_equiv. cbn. repeat split; apply Permutation_refl.
+Qed.
